@@ -148,3 +148,7 @@ impl vstd::std_specs::cmp::OrdSpecImpl for Disposition {
     open spec fn obeys_cmp_spec() -> bool { true }
     open spec fn cmp_spec(&self, other: &Disposition) -> core::cmp::Ordering { dcmp(*self, *other) }
 }
+
+/// ASSUMED contract of `Result::unwrap_or_default` (used on `Result<(), Errno>`: the error is dropped)
+pub assume_specification<T: std::default::Default, E>[ std::result::Result::<T, E>::unwrap_or_default ](r: std::result::Result<T, E>) -> (v: T)
+    ensures r is Ok ==> v == r->Ok_0;
